@@ -29,6 +29,7 @@ func init() {
 			{"C05/pam-gate", "auth service: Authenticated only after PAM start, authenticate and account management succeeded for the submitted user/password", c05PamGate},
 			{"C05/challenge", "no-Authorization route unconditional; per-mechanism challenges registered with their routes; refusals answer 401 + WWW-Authenticate", c05Challenge},
 			{"C05/spnego", "SPNEGO transposition copies the library's verdict and name", c05Spnego},
+			{"C05/ntlm-verifier", "the NTLM verifier keeps a server context only while a challenge is outstanding (C14's context rule, as it gates this endpoint)", func(c *Ctx) { c14ContextScopeAs(c, "C05/ntlm-verifier") }},
 		},
 	})
 }
